@@ -878,3 +878,139 @@ def t_exception_in_comprehension():
         except ValueError:
             return None
     return [safe(v) for v in ("1", "x", "3")], [v for v in map(safe, ("1", "x")) if v is not None]
+
+
+# ---------------------------------------------------------------- batch 4
+
+def t_lambda_default_binding():
+    fs = [lambda i=i: i * 10 for i in range(3)]
+    gs = []
+    for j in range(3):
+        def g(k=j):
+            return k
+        gs.append(g)
+    return [f() for f in fs], [g() for g in gs], fs[1](7)
+
+
+def t_sort_method_variants():
+    l = [("b", 2), ("a", 2), ("c", 1)]
+    l.sort(key=lambda r: r[1], reverse=True)
+    m = [3, 1, 2]
+    m.sort(reverse=True)
+    n = sorted(["b", "A", "c"], key=str.lower)
+    return l, m, n, sorted([1, 2, 3], key=lambda v: -v), sorted([(1, "x"), (1, "a")], key=lambda r: r[0])
+
+
+def t_slice_assign_step():
+    l = list(range(6))
+    l[::2] = ["a", "b", "c"]
+    m = list(range(6))
+    m[1:4] = []
+    n = list(range(4))
+    n[2:2] = [9, 9]
+    o = list(range(5))
+    del o[::2]
+    return l, m, n, o
+
+
+def t_zip_variants():
+    a = list(zip([1, 2, 3], "ab", strict=False))
+    try:
+        b = list(zip([1, 2], "abc", strict=True))
+    except ValueError:
+        b = "ValueError"
+    c = dict(zip("ab", range(2)))
+    d = list(zip())
+    e = [x + y for x, y in zip([1, 2], [10, 20])]
+    return a, b, c, d, e
+
+
+def t_join_generator_consumes():
+    it = iter("abcd")
+    first = next(it)
+    s = "-".join(it)
+    rest = list(it)
+    return first, s, rest, ",".join(str(i) for i in range(3)), "".join(c.upper() for c in "ab" if c != "a")
+
+
+def t_dict_update_variants():
+    d = {"a": 1}
+    d.update(b=2)
+    d.update([("c", 3)])
+    d.update({"a": 9})
+    e = {**d, **{"z": 0}}
+    f = dict(d, y=5)
+    d |= {"k": 1}
+    return d, e, f, d | {"q": 2}
+
+
+def t_nested_ternary_bools():
+    def cls(x):
+        return "neg" if x < 0 else "zero" if x == 0 else "small" if x < 10 else "big"
+    return [cls(v) for v in (-1, 0, 5, 50)], (1 if 0 else 2 if 0 else 3), [x for x in range(5) if x % 2 if x > 1]
+
+
+def t_string_methods_chain():
+    s = " A,b ; C "
+    return [p.strip().lower() for p in s.replace(";", ",").split(",")], s.strip().split(" ; "), s.upper().count("A"), s.title(), "x=1;y=2".partition(";")[2].split("=")[1], "abc".startswith(("x", "a")), "  ".join(["a"]), "a-b".split("-", -1)
+
+
+def t_int_parsing_and_bases():
+    return int("007"), int("-5"), int("1_000"), int("ff", 16), int(3.99), int(-3.99), float("1."), float(".5"), float("1e-3"), int("  12  "), str(10 ** 20), 10 ** 20 // 3, bin(5) if False else 1
+
+
+def t_while_with_else_and_flags():
+    found = None
+    i = 0
+    data = [3, 8, 5]
+    while i < len(data):
+        if data[i] % 2 == 0:
+            found = i
+            break
+        i += 1
+    else:
+        found = -1
+    n = 0
+    while n < 3:
+        n += 1
+    else:
+        n += 100
+    return found, i, n
+
+
+def t_exception_else_finally_order():
+    log = []
+
+    def f(x):
+        try:
+            log.append("try")
+            if x:
+                raise ValueError
+        except ValueError:
+            log.append("except")
+            return "handled"
+        else:
+            log.append("else")
+            return "clean"
+        finally:
+            log.append("finally")
+    return f(0), f(1), log
+
+
+def t_list_comprehension_side_effects():
+    seen = []
+    out = [seen.append(x) or x * 2 for x in range(3)]
+    return out, seen
+
+
+def t_global_rebinding_via_container():
+    state = {"n": 0}
+
+    def bump():
+        state["n"] += 1
+        return state["n"]
+    return bump(), bump(), state
+
+
+def t_min_max_default_key_combo():
+    return min([], default=None), max([], default=0), min([3, 1, 2], key=lambda v: abs(v - 2)), max(["aa", "b"], key=len), min((len(w), w) for w in ["bb", "a", "cc"])
